@@ -505,6 +505,9 @@ class Parser(ExprParser):
             elif self.token.typ == "TYPE_SPECIFIER":
                 node.specifier.append(self.token.value)
                 self.info("type-specifier:", self.token.value)
+                # A following identifier is the declarator, even if it
+                # is also the name of a type:  int Class1
+                found_type = True
                 self.next()
             elif self.token.typ == "TYPE_QUALIFIER":
                 # const volatile
